@@ -34,8 +34,12 @@ for name in names:
     scratch = tempfile.mkdtemp(prefix="vsout_", dir="/tmp")
     try:
         subprocess.check_call(["git", "-C", "/repo", "worktree", "add", "-q", "--detach", wt, "HEAD"])
-        subprocess.check_call(["git", "-C", wt, "apply", os.path.join(d, "patch.diff")])
         row = {"name": name, "property": meta["property"]}
+        if subprocess.call(["git", "-C", wt, "apply", os.path.join(d, "patch.diff")]) != 0:
+            row.update(detected=False, checks={}, error="patch does not apply to /repo HEAD")
+            results.append(row)
+            print(json.dumps(row))
+            continue
         if full:
             b = subprocess.run([os.path.join(HERE, "tools", "baseline.sh"), wt], capture_output=True, text=True)
             row["baseline"] = b.stdout.strip().splitlines()[0] if b.stdout.strip() else "?"
